@@ -36,6 +36,8 @@ def make_cluster(I, st, P, stype):
     oav = I.instantiate(fr, ci, [vals, pos_scalar("dt", DT)], {"stypes": const_av(stype)}, node)
     return st.heap[oav.obj], oav
 
+from ..normalise import pinned
+
 
 def run(chk):
     P = chk.P
@@ -107,10 +109,16 @@ def run(chk):
             construct = "%s:%s" % (fi.module.relpath, label)
             bad = []
             notes = []
+            # a helper the pinned tree does not have, private by name, is not an API of the library: its parameters are whatever its
+            # callers pass (an output buffer, usually), and every caller is analysed through it (inlined or followed) with its own
+            # arguments, so a write that reaches a caller's argument is still reported there
+            new_private = fi.qualname not in pinned() and fi.name.startswith("_") and not fi.name.startswith("__")
             for e in I.events:
                 if e.kind == "mutation":
                     pt = param_tokens(e.origins)
-                    if pt:
+                    if pt and new_private:
+                        notes.append("%s (new private helper) writes into its parameter %s: judged at its callers" % (label, pt))
+                    elif pt:
                         bad.append((e, "in-place %s on value aliasing parameter %s" % (e.how, pt)))
                 elif e.kind == "attr-write" and e.is_param:
                     if e.attr in INPUT_ATTRS:
@@ -179,6 +187,26 @@ def run(chk):
                v is not None and v.kind == K_ARRAY and v.length() == oo.attrs["_npts"].sym,
                derived="kind=%s len=%r npts=%r" % (v.kind if v else None, v.length() if v else None, oo.attrs["_npts"].sym),
                loc=init.loc())
+    # ------------------------------------------------------------------ npts follows a replacement of the values, on every signal class
+    for cq in (SIG, ACC):
+        ci = P.cls(cq)
+        rv = ci.find_method("reset_values")
+        if rv is None:
+            continue
+        I = Interp(P)
+        I.atoms = {R, DT}
+        st = State()
+        o, oav = make_signal(I, st, ci, name="self", flags="unknown", is_param=False)
+        new_vals = rec_array("new_values", n="m")
+        bound = I.bind(rv, [oav], {rv.params[1]: new_vals}, None, None)
+        I.run(rv, bound, st, self_obj=o)
+        chk.absorb_interp(I)
+        oo = st.heap[o.id]
+        v, npts = oo.attrs.get("_values"), oo.attrs.get("_npts")
+        ok = v is not None and npts is not None and v.length() is not None and v.length() == LinExpr("m") and npts.sym == LinExpr("m")
+        chk.ob("R-KIND", "%s:%s.reset_values{npts}" % (ci.module.relpath, ci.name), "after replacing the values by an array of another length, "
+               "npts is the new length (whichever class overrides the hooks reset_values calls)", ok,
+               derived="len(values)=%r npts=%r" % (v.length() if v is not None else None, npts.sym if npts is not None else None), loc=rv.loc())
     # ------------------------------------------------------------------ R-OWN / R-KIND at every store to _values
     seen = set()
     for e, entry, st in stores:
